@@ -74,8 +74,11 @@ def counter_writers(ctx, rep, rule: str) -> None:
         for fi in c.methods.values():
             for st in ast.walk(fi.node):
                 tgts = st.targets if isinstance(st, ast.Assign) else ([st.target] if isinstance(st, (ast.AnnAssign, ast.AugAssign)) else [])
+                aliases = {s_.targets[0].id for s_ in ast.walk(fi.node) if isinstance(s_, ast.Assign) and len(s_.targets) == 1 and isinstance(s_.targets[0], ast.Name) and "failed_amortized_computation_counter_list" in ast.unparse(s_.value) and isinstance(s_.value, ast.Attribute)}
                 for t in tgts:
                     txt = ast.unparse(t)
+                    if isinstance(t, ast.Subscript) and isinstance(t.value, ast.Name) and t.value.id in aliases:
+                        txt = "self._local_failed_amortized_computation_counter_list[...]"  # a store through a plain alias of the list
                     if "failed_amortized_computation_counter_list" not in txt:
                         continue
                     n += 1
@@ -92,7 +95,7 @@ def counter_writers(ctx, rep, rule: str) -> None:
                         ok = fi.name == "_raise_exception_if_failure_tolerance_exceeded"
                         why = "element stores happen only in the tolerance routine"
                     rep.ob(rule, f"counter-writers:{c.name}.{fi.name}", ok, fi.loc(st), f"`{ast.unparse(st)[:90]}`: {why}", sample=(n % 3 == 0))
-    rep.floor(rule, "stores to the failure-counter lists", n, 3)
+    rep.floor(rule, "stores to the failure-counter lists", n, 1)
 
 
 def error_class_reaches_the_caller(ctx, rep, rule: str) -> None:
